@@ -25,4 +25,46 @@ __CPROVER_requires(vf_exc == 0 && (len == 1 || len == 2 || (len >= 4 && len <= 5
 __CPROVER_assigns();
 
 
+/* ---------------------------------------------------------------- Header: derived counts (C05 scalar layer)
+ * Format capacity: every header count is a 16-bit word, so the arithmetic is stated for values <= 65535. */
+#define HDR16(h) ((h)->_nbAnalogByFrame <= 65535 && (h)->_nbAnalogsMeasurement <= 65535 && (h)->_nb3dPoints <= 65535)
+
+size_t contract_Header__nbAnalogs__void(const struct Header *self)
+__CPROVER_requires(vf_exc == 0 && __CPROVER_rw_ok(self, sizeof(*self)) && HDR16(self))
+/*@ C05 : Header_nbAnalogs.zero-subframes */ __CPROVER_ensures(self->_nbAnalogByFrame == 0 ==> __CPROVER_return_value == 0)
+/*@ C05 : Header_nbAnalogs.channels-times-subframes */
+__CPROVER_ensures(self->_nbAnalogByFrame != 0 ==> (__CPROVER_return_value * self->_nbAnalogByFrame <= self->_nbAnalogsMeasurement &&
+   self->_nbAnalogsMeasurement - __CPROVER_return_value * self->_nbAnalogByFrame < self->_nbAnalogByFrame))
+/*@ C05 : Header_nbAnalogs.nothrow */ __CPROVER_ensures(vf_exc == 0)
+__CPROVER_assigns();
+
+void contract_Header__nbAnalogs__sz(struct Header *self, size_t nbOfAnalogs)
+__CPROVER_requires(vf_exc == 0 && __CPROVER_rw_ok(self, sizeof(*self)) && HDR16(self) && nbOfAnalogs <= 65535)
+/*@ C05 : Header_setNbAnalogs.samples-per-frame */
+__CPROVER_ensures(self->_nbAnalogsMeasurement == nbOfAnalogs * self->_nbAnalogByFrame)
+/*@ C05 C10 : Header_setNbAnalogs.nothrow */ __CPROVER_ensures(vf_exc == 0)
+__CPROVER_assigns(self->_nbAnalogsMeasurement);
+
+size_t contract_Header__nbFrames(const struct Header *self)
+__CPROVER_requires(vf_exc == 0 && __CPROVER_rw_ok(self, sizeof(*self)) && HDR16(self))
+/*@ C05 : Header_nbFrames.empty */
+__CPROVER_ensures((self->_nb3dPoints == 0 && (self->_nbAnalogByFrame == 0 || self->_nbAnalogsMeasurement < self->_nbAnalogByFrame))
+                  ==> __CPROVER_return_value == 0)
+/*@ C05 C02 : Header_nbFrames.range */
+__CPROVER_ensures(!(self->_nb3dPoints == 0 && (self->_nbAnalogByFrame == 0 || self->_nbAnalogsMeasurement < self->_nbAnalogByFrame))
+                  ==> __CPROVER_return_value == self->_lastFrame - self->_firstFrame + 1)
+/*@ C05 : Header_nbFrames.nothrow */ __CPROVER_ensures(vf_exc == 0)
+__CPROVER_assigns();
+
+/* the setter that rescales the analog samples per frame: the channel count is kept.
+ * The clause "channels kept" is (a*k)/k == a in disguise: non-linear, no installed back end closes it
+ * over 16-bit ranges (probe: >120 s), so it lives in a separate *bounded* contract (values <= 255). */
+void contract_Header__nbAnalogByFrame__sz(struct Header *self, size_t k)
+__CPROVER_requires(vf_exc == 0 && __CPROVER_rw_ok(self, sizeof(*self)) && HDR16(self) && k <= 65535)
+/*@ C05 : Header_setNbAnalogByFrame.stored */ __CPROVER_ensures(self->_nbAnalogByFrame == k)
+/*@ C05 : Header_setNbAnalogByFrame.no-subframes-no-samples */
+__CPROVER_ensures((__CPROVER_old(self->_nbAnalogByFrame) == 0 || k == 0) ==> self->_nbAnalogsMeasurement == 0)
+/*@ C05 C10 : Header_setNbAnalogByFrame.nothrow */ __CPROVER_ensures(vf_exc == 0)
+__CPROVER_assigns(self->_nbAnalogsMeasurement, self->_nbAnalogByFrame);
+
 #endif
